@@ -87,11 +87,9 @@ Section Ledger.
   Proof.
     intros Hr Hp Hin Hex.
     assert (HinM : In tp M).
-    { unfold M, managed_for_plan.
-      assert (Hl : In tp (load_managed (files w) roots)) by (unfold load_managed; apply in_flat_map; exists r; auto).
-      destruct (load_managed (files w) roots) as [|x m]; [contradiction|].
-      apply in_filter_managed. split; [exact Hl|].
-      apply in_root_managed in Hin as [es [e (_ & _ & _ & ->)]]. exact Hp. }
+    { unfold M. apply load_in_managed_for_plan.
+      - unfold load_managed; apply in_flat_map; exists r; auto.
+      - apply in_root_managed in Hin as [es [e (_ & _ & _ & ->)]]. exact Hp. }
     destruct (mem_key tp D) eqn:Ek.
     - apply mem_key_true in Ek as [d [Hd Hk]].
       assert (Hsome : best_root_idx roots (dtarget d) (dpath d) <> None).
